@@ -20,6 +20,7 @@ def run(chk):
     chk.exhaustive = True
     batcher.send_rules(chk, P, "C09")
     batcher.lossless_variants(chk, P, "C09")
+    batcher.item_always_handed_on(chk, P, "C09")
     batcher.wait_closures(chk, P, "C09")
     batcher.send_or_wait_outcomes(chk, P, "C09")
     batcher.who_may(chk, P, "C09")
